@@ -333,6 +333,7 @@ class Context:
         self.axioms = []    # (text, symbols) always-included if all symbols declared & used
         self.counter = 0
         self.sorts = {"U"}
+        self.fact_tag = {}  # assumed invariant text -> invariant name
         self.recdefs = {}   # recursive definitions: name -> (params, sort, body text)
         self.qtag = {}      # forall text -> name of the clause it came from
         self.qreg = {}      # forall text -> (bound variable, inner text) for instantiation
